@@ -247,7 +247,11 @@ def main():
         for m in infra:
             print('UNDECIDED: ' + m)
         sys.exit(2)
-    print('%s: %d obligations over %d functions under contract, all discharged (%.1fs)' % (prop, total, len(set(fn_under_contract)), wall))
+    btxt = ''
+    if bounded_units:
+        btxt = '; bounded stand-ins (not counted as proved): %d units, %d of %d obligations hold up to the stated bounds' % (
+            len(bounded_units), sum(b['discharged'] for b in bounded_units.values()), sum(b['obligations'] for b in bounded_units.values()))
+    print('%s: %d obligations over %d functions under contract, all discharged%s (%.1fs)' % (prop, total, len(set(fn_under_contract)), btxt, wall))
     sys.exit(0)
 
 if __name__ == '__main__':
